@@ -692,3 +692,272 @@ Qed.
 
 Example list_header_14_15 : enc_lhdr 12 14 = [236] /\ enc_lhdr 12 15 = [252; 15].
 Proof. split; vm_compute; reflexivity. Qed.
+
+(* ------------------------------------------------------------------------------------------ *)
+(** * thrift_skip consumes exactly one legal encoding of any value of any wire type *)
+
+Lemma skip_value_el : forall fuel c depth d, c <> 1 -> c <> 2 ->
+  skip_value fuel c depth false d = skip_value fuel c depth true d.
+Proof.
+  intros fuel c depth d H1 H2. destruct fuel; cbn [skip_value]; destruct (MAX_NESTING <=? depth); try reflexivity.
+  destruct c as [|p]; try reflexivity.
+  do 4 (try destruct p as [p|p|]; try reflexivity); congruence.
+Qed.
+
+Lemma code_of_type c t : type_of_code c = Some t -> t <> TBool -> c = code t.
+Proof.
+  intros H NB. destruct (N.eq_dec c 1) as [->|N1]; [inversion H; congruence|].
+  destruct (N.eq_dec c 2) as [->|N2]; [inversion H; congruence|].
+  destruct (type_of_code_nonbool _ _ H N1 N2) as [_ E]. symmetry. exact E.
+Qed.
+
+(** [fits fuel depth nl v]: v is within the limits the C code enforces when it is skipped with [fuel] frames
+    available, at skip depth [depth], with [nl] structs open *)
+Definition fits (fuel : nat) (depth nl : N) (v : tval) : Prop :=
+  (vdepth v <= fuel)%nat /\ depth + N.of_nat (vdepth v) <= MAX_NESTING /\ nl + N.of_nat (vdepth v) <= MAX_NESTING.
+
+Lemma fits_child fuel depth nl v x : fits (S fuel) depth nl v -> (S (vdepth x) <= vdepth v)%nat -> fits fuel (depth + 1) nl x.
+Proof. intros (A & B & C) H. unfold fits. repeat split; lia. Qed.
+
+Lemma fits_child_struct fuel depth nl v x : fits (S fuel) depth nl v -> (S (vdepth x) <= vdepth v)%nat -> fits fuel (depth + 1) (nl + 1) x.
+Proof. intros (A & B & C) H. unfold fits. repeat split; lia. Qed.
+
+Lemma vdepth_pos v : (1 <= vdepth v)%nat.
+Proof. destruct v; simpl; lia. Qed.
+
+Lemma fold_max_in (vs : list tval) v : In v vs -> (vdepth v <= fold_right (fun x acc => Nat.max (vdepth x) acc) O vs)%nat.
+Proof. induction vs as [|x t IH]; intros H; [destruct H|]. simpl. destruct H as [->|H]; [lia|]. specialize (IH H). lia. Qed.
+
+Lemma fold_max_in_p (kvs : list (tval * tval)) k v : In (k, v) kvs ->
+  (Nat.max (vdepth k) (vdepth v) <=
+   fold_right (fun (kv : tval * tval) acc => let (k, x) := kv in Nat.max (Nat.max (vdepth k) (vdepth x)) acc) O kvs)%nat.
+Proof.
+  induction kvs as [|[k0 x0] t IH]; intros H; [destruct H|]. simpl. destruct H as [E|H]; [inversion E; subst; lia|].
+  specialize (IH H). lia.
+Qed.
+
+Lemma fold_max_in_f (fs : list (Z * tval)) id v : In (id, v) fs ->
+  (vdepth v <= fold_right (fun (f : Z * tval) acc => let (_, x) := f in Nat.max (vdepth x) acc) O fs)%nat.
+Proof.
+  induction fs as [|[i0 x0] t IH]; intros H; [destruct H|]. simpl. destruct H as [E|H]; [inversion E; subst; lia|].
+  specialize (IH H). lia.
+Qed.
+
+Lemma len_cons {A} (x : A) l : len (x :: l) = len l + 1.
+Proof. unfold len. cbn [length]. lia. Qed.
+
+Theorem skip_spec :
+  (forall t v pre, enc t v pre -> forall fuel depth c d tail pos lf,
+     type_of_code c = Some t -> fits fuel depth (len lf) v -> at_ d (pre ++ tail) pos lf ->
+     exists d', skip_value fuel c depth true d = Ok d' /\ at_ d' tail (pos + N.of_nat (length pre)) lf) /\
+  (forall et vs body, enc_elems et vs body -> forall fuel depth c d tail pos lf,
+     type_of_code c = Some et -> (forall v, In v vs -> fits fuel depth (len lf) v) -> at_ d (body ++ tail) pos lf ->
+     exists d', skip_elems (skip_value fuel c depth true) (length vs) d = Ok d' /\
+                at_ d' tail (pos + N.of_nat (length body)) lf) /\
+  (forall kt vt kvs body, enc_pairs kt vt kvs body -> forall fuel depth kc vc d tail pos lf,
+     type_of_code kc = Some kt -> type_of_code vc = Some vt ->
+     (forall k v, In (k, v) kvs -> fits fuel depth (len lf) k /\ fits fuel depth (len lf) v) -> at_ d (body ++ tail) pos lf ->
+     exists d', skip_pairs (skip_value fuel kc depth true) (skip_value fuel vc depth true) (length kvs) d = Ok d' /\
+                at_ d' tail (pos + N.of_nat (length body)) lf) /\
+  (forall last fs pre, enc_fields last fs pre -> forall fuel depth k d tail pos st,
+     in_range 16 last -> (forall id v, In (id, v) fs -> fits fuel depth (len st + 1) v) -> (length fs < length k)%nat ->
+     at_ d (pre ++ tail) pos (last :: st) ->
+     exists d' last', skip_fields (fun ft => skip_value fuel ft depth false) k d = Ok d' /\
+                      at_ d' tail (pos + N.of_nat (length pre)) (last' :: st)).
+Proof.
+  apply enc_mutind.
+  - (* true *) intros fuel depth c d tail pos lf TC (F1 & F2 & F3) Hat. cbn [vdepth] in *.
+    destruct fuel; [lia|]. cbn [skip_value]. assert (E : (MAX_NESTING <=? depth) = false) by (apply N.leb_gt; lia). rewrite E.
+    assert (C12 : c = 1 \/ c = 2).
+    { destruct c as [|p]; [discriminate|]. do 4 (try destruct p as [p|p|]; try discriminate); auto. }
+    destruct (read_byte_raw_at _ _ _ _ _ Hat) as (d' & RB & Hat').
+    destruct C12 as [-> | ->]; rewrite RB; exists d'; (split; [reflexivity | exact Hat']).
+  - (* false *) intros b Hb fuel depth c d tail pos lf TC (F1 & F2 & F3) Hat. cbn [vdepth] in *.
+    destruct fuel; [lia|]. cbn [skip_value]. assert (E : (MAX_NESTING <=? depth) = false) by (apply N.leb_gt; lia). rewrite E.
+    assert (C12 : c = 1 \/ c = 2).
+    { destruct c as [|p]; [discriminate|]. do 4 (try destruct p as [p|p|]; try discriminate); auto. }
+    destruct (read_byte_raw_at _ _ _ _ _ Hat) as (d' & RB & Hat').
+    destruct C12 as [-> | ->]; rewrite RB; exists d'; (split; [reflexivity | exact Hat']).
+  - (* byte *) intros z Hz fuel depth c d tail pos lf TC (F1 & F2 & F3) Hat. cbn [vdepth] in *.
+    apply code_of_type in TC; [|discriminate]. subst c. cbn [code].
+    destruct fuel; [lia|]. cbn [skip_value]. assert (E : (MAX_NESTING <=? depth) = false) by (apply N.leb_gt; lia). rewrite E.
+    unfold reader_skip. rewrite (has_bytes_at d _ pos lf 1 Hat) by (simpl; lia).
+    destruct Hat as (R & P & L & B). rewrite R. cbn [N.to_nat Pos.to_nat Pos.iter_op take_bytes app].
+    eexists. split; [reflexivity|]. unfold at_. simpl. rewrite P. auto.
+  - (* i16 *) intros z l Rz V fuel depth c d tail pos lf TC (F1 & F2 & F3) Hat. cbn [vdepth] in *.
+    apply code_of_type in TC; [|discriminate]. subst c. cbn [code].
+    destruct fuel; [lia|]. cbn [skip_value]. assert (E : (MAX_NESTING <=? depth) = false) by (apply N.leb_gt; lia). rewrite E.
+    destruct (read_varint_spec _ _ _ _ _ _ V Hat) as (d' & RV & Hat'). rewrite RV. eauto.
+  - (* i32 *) intros z l Rz V fuel depth c d tail pos lf TC (F1 & F2 & F3) Hat. cbn [vdepth] in *.
+    apply code_of_type in TC; [|discriminate]. subst c. cbn [code].
+    destruct fuel; [lia|]. cbn [skip_value]. assert (E : (MAX_NESTING <=? depth) = false) by (apply N.leb_gt; lia). rewrite E.
+    destruct (read_varint_spec _ _ _ _ _ _ V Hat) as (d' & RV & Hat'). rewrite RV. eauto.
+  - (* i64 *) intros z l Rz V fuel depth c d tail pos lf TC (F1 & F2 & F3) Hat. cbn [vdepth] in *.
+    apply code_of_type in TC; [|discriminate]. subst c. cbn [code].
+    destruct fuel; [lia|]. cbn [skip_value]. assert (E : (MAX_NESTING <=? depth) = false) by (apply N.leb_gt; lia). rewrite E.
+    destruct (read_varint_spec _ _ _ _ _ _ V Hat) as (d' & RV & Hat'). rewrite RV. eauto.
+  - (* double *) intros bits Hb fuel depth c d tail pos lf TC (F1 & F2 & F3) Hat. cbn [vdepth] in *.
+    apply code_of_type in TC; [|discriminate]. subst c. cbn [code].
+    destruct fuel; [lia|]. cbn [skip_value]. assert (E : (MAX_NESTING <=? depth) = false) by (apply N.leb_gt; lia). rewrite E.
+    unfold reader_skip. rewrite (has_bytes_at d _ pos lf 8 Hat) by (rewrite app_length, le_bytes_length; simpl; lia).
+    destruct Hat as (R & P & L & B). rewrite R.
+    pose proof (take_bytes_app (ThriftSpec.le_bytes 8 bits) tail) as T. rewrite le_bytes_length in T.
+    change (N.to_nat 8) with 8%nat. rewrite T. eexists. split; [reflexivity|]. unfold at_. cbn [d_rest d_pos d_lfid d_boolp with_reader]. rewrite P, le_bytes_length. auto.
+  - (* binary *) intros bs l Bb Lb V fuel depth c d tail pos lf TC (F1 & F2 & F3) Hat. cbn [vdepth] in *.
+    apply code_of_type in TC; [|discriminate]. subst c. cbn [code].
+    destruct fuel; [lia|]. cbn [skip_value]. assert (E : (MAX_NESTING <=? depth) = false) by (apply N.leb_gt; lia). rewrite E.
+    destruct (read_binary_spec bs l d tail pos lf Lb V Hat) as (d' & RB & Hat'). rewrite RB. eauto.
+  - (* list *) intros et ec vs h body TC LH HE IH fuel depth c d tail pos lf TCc F Hat.
+    apply code_of_type in TCc; [|discriminate]. subst c. cbn [code].
+    destruct F as (F1 & F2 & F3). cbn [vdepth] in F1, F2, F3.
+    destruct fuel; [lia|]. cbn [skip_value]. assert (E : (MAX_NESTING <=? depth) = false) by (apply N.leb_gt; lia). rewrite E.
+    rewrite <- app_assoc in Hat. pose proof (type_of_code_bound _ _ TC) as ECb.
+    assert (Hn : N.of_nat (length vs) < 2 ^ 31) by (inversion LH; subst; [change (2 ^ 31) with 2147483648; lia | assumption]).
+    destruct (read_list_begin_spec ec _ h d (body ++ tail) pos lf ltac:(lia) LH Hn) as (d1 & RL & Hat1).
+    { rewrite Nat2N.id, app_length. pose proof (enc_elems_length _ _ _ HE). lia. }
+    { exact Hat. }
+    rewrite RL. replace (Z.to_nat (Z.of_N (N.of_nat (length vs)))) with (length vs) by lia.
+    destruct (IH fuel (depth + 1) ec d1 tail (pos + N.of_nat (length h)) lf TC) as (d' & SE & Hat'); [|exact Hat1|].
+    { intros v Hin. pose proof (fold_max_in vs v Hin). unfold fits. repeat split; lia. }
+    exists d'. split; [exact SE|]. rewrite app_length. replace (pos + N.of_nat (length h + length body)) with (pos + N.of_nat (length h) + N.of_nat (length body)) by lia. exact Hat'.
+  - (* set *) intros et ec vs h body TC LH HE IH fuel depth c d tail pos lf TCc F Hat.
+    apply code_of_type in TCc; [|discriminate]. subst c. cbn [code].
+    destruct F as (F1 & F2 & F3). cbn [vdepth] in F1, F2, F3.
+    destruct fuel; [lia|]. cbn [skip_value]. assert (E : (MAX_NESTING <=? depth) = false) by (apply N.leb_gt; lia). rewrite E.
+    rewrite <- app_assoc in Hat. pose proof (type_of_code_bound _ _ TC) as ECb.
+    assert (Hn : N.of_nat (length vs) < 2 ^ 31) by (inversion LH; subst; [change (2 ^ 31) with 2147483648; lia | assumption]).
+    destruct (read_list_begin_spec ec _ h d (body ++ tail) pos lf ltac:(lia) LH Hn) as (d1 & RL & Hat1).
+    { rewrite Nat2N.id, app_length. pose proof (enc_elems_length _ _ _ HE). lia. }
+    { exact Hat. }
+    rewrite RL. replace (Z.to_nat (Z.of_N (N.of_nat (length vs)))) with (length vs) by lia.
+    destruct (IH fuel (depth + 1) ec d1 tail (pos + N.of_nat (length h)) lf TC) as (d' & SE & Hat'); [|exact Hat1|].
+    { intros v Hin. pose proof (fold_max_in vs v Hin). unfold fits. repeat split; lia. }
+    exists d'. split; [exact SE|]. rewrite app_length. replace (pos + N.of_nat (length h + length body)) with (pos + N.of_nat (length h) + N.of_nat (length body)) by lia. exact Hat'.
+  - (* empty map *) intros l V fuel depth c d tail pos lf TC (F1 & F2 & F3) Hat. cbn [vdepth fold_right] in *.
+    apply code_of_type in TC; [|discriminate]. subst c. cbn [code].
+    destruct fuel; [lia|]. cbn [skip_value]. assert (E : (MAX_NESTING <=? depth) = false) by (apply N.leb_gt; lia). rewrite E.
+    unfold read_map_begin. destruct (read_varint_spec _ _ _ _ _ _ V Hat) as (d' & RV & Hat'). rewrite RV.
+    change (i32 (Z.of_N 0)) with 0%Z. cbn [Z.ltb Z.eqb Z.compare Z.to_nat skip_pairs]. eauto.
+  - (* map *) intros kt vt kc vc kvs l body NE Ln V TK TV HP IH fuel depth c d tail pos lf TCc F Hat.
+    apply code_of_type in TCc; [|discriminate]. subst c. cbn [code].
+    destruct F as (F1 & F2 & F3). cbn [vdepth] in F1, F2, F3.
+    destruct fuel; [lia|]. cbn [skip_value]. assert (E : (MAX_NESTING <=? depth) = false) by (apply N.leb_gt; lia). rewrite E.
+    rewrite <- app_assoc in Hat. unfold read_map_begin.
+    destruct (read_varint_spec _ _ _ _ _ _ V Hat) as (d1 & RV & Hat1). rewrite RV.
+    assert (I : i32 (Z.of_N (N.of_nat (length kvs))) = Z.of_nat (length kvs)).
+    { unfold i32. rewrite scast_id; [lia | lia |]. unfold in_range. change (2 ^ (32 - 1))%Z with 2147483648%Z.
+      change (2 ^ 31) with 2147483648 in Ln. lia. }
+    rewrite I. assert (Lpos : (0 < length kvs)%nat) by (destruct kvs; [congruence | simpl; lia]).
+    assert (E1 : (Z.of_nat (length kvs) <? 0)%Z = false) by (apply Z.ltb_ge; lia). rewrite E1.
+    assert (E2 : (Z.of_nat (length kvs) =? 0)%Z = false) by (apply Z.eqb_neq; lia). rewrite E2.
+    cbn [app] in Hat1.
+    rewrite (has_bytes_at d1 _ _ lf _ Hat1) by (simpl; rewrite app_length; pose proof (enc_pairs_length _ _ _ _ HP); lia).
+    cbn [negb]. destruct (read_byte_raw_at _ _ _ _ _ Hat1) as (d2 & RB & Hat2). rewrite RB.
+    pose proof (type_of_code_bound _ _ TK) as BK. pose proof (type_of_code_bound _ _ TV) as BV.
+    destruct (nibbles (16 * kc + vc) ltac:(lia)) as [N1 N2]. rewrite N1, N2.
+    assert (E3 : (16 * kc + vc) / 16 = kc).
+    { rewrite N.add_comm, (N.mul_comm 16). rewrite N.div_add by lia. rewrite N.div_small by lia. lia. }
+    assert (E4 : (16 * kc + vc) mod 16 = vc).
+    { rewrite N.add_comm, (N.mul_comm 16). rewrite N.mod_add by lia. apply N.mod_small. lia. }
+    rewrite E3, E4, Nat2Z.id.
+    destruct (IH fuel (depth + 1) kc vc d2 tail (pos + N.of_nat (length l) + 1) lf TK TV) as (d' & SP & Hat'); [|exact Hat2|].
+    { intros k v Hin. pose proof (fold_max_in_p kvs k v Hin). unfold fits. repeat split; lia. }
+    exists d'. split; [exact SP|]. rewrite app_length. cbn [length].
+    replace (pos + N.of_nat (length l + S (length body))) with (pos + N.of_nat (length l) + 1 + N.of_nat (length body)) by lia. exact Hat'.
+  - (* struct *) intros fs bs HF IH fuel depth c d tail pos lf TCc F Hat.
+    apply code_of_type in TCc; [|discriminate]. subst c. cbn [code].
+    destruct F as (F1 & F2 & F3). cbn [vdepth] in F1, F2, F3.
+    destruct fuel; [lia|]. cbn [skip_value]. assert (E : (MAX_NESTING <=? depth) = false) by (apply N.leb_gt; lia). rewrite E.
+    unfold read_struct_begin. destruct Hat as (R & P & L & B). rewrite L.
+    assert (E5 : (MAX_NESTING <=? len lf) = false) by (apply N.leb_gt; lia). rewrite E5.
+    set (d1 := with_lfid d (0%Z :: lf)).
+    assert (Hat1 : at_ d1 (bs ++ tail) pos (0%Z :: lf)) by (unfold at_, d1; simpl; auto).
+    destruct (IH fuel (depth + 1) (0 :: d_rest d1) d1 tail pos lf) as (d2 & last' & SF & Hat2); [| | |exact Hat1|].
+    { unfold in_range. simpl. lia. }
+    { intros id v Hin. pose proof (fold_max_in_f fs id v Hin). unfold fits. repeat split; lia. }
+    { unfold d1. simpl. rewrite R, app_length. pose proof (enc_fields_length _ _ _ HF). lia. }
+    rewrite SF. eexists. split; [reflexivity|]. destruct Hat2 as (R2 & P2 & L2 & B2).
+    unfold at_, read_struct_end. simpl. rewrite L2. simpl. auto.
+  - (* uuid *) intros bs Lb Bb fuel depth c d tail pos lf TC (F1 & F2 & F3) Hat. cbn [vdepth] in *.
+    apply code_of_type in TC; [|discriminate]. subst c. cbn [code].
+    destruct fuel; [lia|]. cbn [skip_value]. assert (E : (MAX_NESTING <=? depth) = false) by (apply N.leb_gt; lia). rewrite E.
+    unfold reader_skip. rewrite (has_bytes_at d _ pos lf 16 Hat) by (rewrite app_length, Lb; simpl; lia).
+    destruct Hat as (R & P & L & B). rewrite R.
+    pose proof (take_bytes_app bs tail) as T. rewrite Lb in T. change (N.to_nat 16) with 16%nat. rewrite T.
+    eexists. split; [reflexivity|]. unfold at_. simpl. rewrite P, Lb. auto.
+  - (* elems nil *) intros et fuel depth c d tail pos lf _ _ Hat. exists d. split; [reflexivity|].
+    simpl. replace (pos + 0) with pos by lia. exact Hat.
+  - (* elems cons *) intros et v vs b1 b2 H1 IH1 H2 IH2 fuel depth c d tail pos lf TC F Hat. cbn [length skip_elems].
+    rewrite <- app_assoc in Hat.
+    destruct (IH1 fuel depth c d (b2 ++ tail) pos lf TC (F v (or_introl eq_refl)) Hat) as (d1 & S1 & Hat1). rewrite S1.
+    destruct (IH2 fuel depth c d1 tail _ lf TC (fun x Hx => F x (or_intror Hx)) Hat1) as (d2 & S2 & Hat2).
+    exists d2. split; [exact S2|]. rewrite app_length.
+    replace (pos + N.of_nat (length b1 + length b2)) with (pos + N.of_nat (length b1) + N.of_nat (length b2)) by lia. exact Hat2.
+  - (* pairs nil *) intros kt vt fuel depth kc vc d tail pos lf _ _ _ Hat. exists d. split; [reflexivity|].
+    simpl. replace (pos + 0) with pos by lia. exact Hat.
+  - (* pairs cons *) intros kt vt k v kvs b1 b2 b3 H1 IH1 H2 IH2 H3 IH3 fuel depth kc vc d tail pos lf TK TV F Hat.
+    cbn [length skip_pairs]. rewrite <- !app_assoc in Hat. destruct (F k v (or_introl eq_refl)) as [Fk Fv].
+    destruct (IH1 fuel depth kc d (b2 ++ b3 ++ tail) pos lf TK Fk Hat) as (d1 & S1 & Hat1). rewrite S1.
+    destruct (IH2 fuel depth vc d1 (b3 ++ tail) _ lf TV Fv Hat1) as (d2 & S2 & Hat2). rewrite S2.
+    destruct (IH3 fuel depth kc vc d2 tail _ lf TK TV (fun k' v' Hx => F k' v' (or_intror Hx)) Hat2) as (d3 & S3 & Hat3).
+    exists d3. split; [exact S3|]. rewrite !app_length.
+    replace (pos + N.of_nat (length b1 + (length b2 + length b3))) with (pos + N.of_nat (length b1) + N.of_nat (length b2) + N.of_nat (length b3)) by lia.
+    exact Hat3.
+  - (* stop *) intros last fuel depth k d tail pos st Rl _ Hk Hat. destruct k; [simpl in Hk; lia|]. cbn [skip_fields app].
+    destruct (read_field_begin_stop _ _ _ _ Hat) as (d' & RF & Hat'). rewrite RF. exists d', last. split; [reflexivity | exact Hat'].
+  - (* bool field *) intros last id b fs h rest Rid FH HF IH fuel depth k d tail pos st Rl F Hk Hat.
+    destruct k as [|k0 k]; [simpl in Hk; lia|]. cbn [skip_fields]. rewrite <- app_assoc in Hat.
+    destruct (read_field_begin_spec last id _ h d (rest ++ tail) pos st FH ltac:(destruct b; lia) Rid Rl Hat) as (d1 & RF & A).
+    rewrite RF. destruct A as (R1 & P1 & L1 & B1 & V1).
+    destruct (F id (VBool b) (or_introl eq_refl)) as (F1 & F2 & F3). cbn [vdepth] in F1, F2, F3.
+    destruct fuel; [lia|].
+    assert (SK : skip_value (S fuel) (if b then 1 else 2) depth false d1 = Ok (with_bool d1 false (d_boolv d1))).
+    { cbn [skip_value]. assert (E : (MAX_NESTING <=? depth) = false) by (apply N.leb_gt; lia). rewrite E. destruct b; reflexivity. }
+    rewrite SK.
+    destruct (IH (S fuel) depth k (with_bool d1 false (d_boolv d1)) tail (pos + N.of_nat (length h)) st Rid) as (d2 & last' & SF & Hat2).
+    { intros i v Hin. apply (F i v). right. exact Hin. }
+    { simpl in Hk. lia. }
+    { unfold at_. simpl. auto. }
+    exists d2, last'. split; [exact SF|]. rewrite app_length.
+    replace (pos + N.of_nat (length h + length rest)) with (pos + N.of_nat (length h) + N.of_nat (length rest)) by lia. exact Hat2.
+  - (* other field *) intros last id v fs h pay rest Rid NB FH HE IHE HF IH fuel depth k d tail pos st Rl F Hk Hat.
+    destruct k as [|k0 k]; [simpl in Hk; lia|]. cbn [skip_fields]. rewrite <- !app_assoc in Hat.
+    pose proof (code_bound (type_of v)) as CB. destruct (code_nonbool _ NB) as [N1 N2].
+    destruct (read_field_begin_spec last id _ h d (pay ++ rest ++ tail) pos st FH ltac:(lia) Rid Rl Hat) as (d1 & RF & A).
+    rewrite RF. destruct A as (R1 & P1 & L1 & B1 & V1).
+    assert (Hat1 : at_ d1 (pay ++ rest ++ tail) (pos + N.of_nat (length h)) (id :: st)).
+    { unfold at_. repeat split; auto. rewrite B1. apply N.eqb_neq in N1, N2. rewrite N1, N2. reflexivity. }
+    rewrite skip_value_el by assumption.
+    destruct (IHE fuel depth (code (type_of v)) d1 (rest ++ tail) (pos + N.of_nat (length h)) (id :: st) (type_of_code_code _)) as (d2 & SV & Hat2); [|exact Hat1|].
+    { rewrite len_cons. apply (F id v). left. reflexivity. }
+    rewrite SV.
+    destruct (IH fuel depth k d2 tail (pos + N.of_nat (length h) + N.of_nat (length pay)) st Rid) as (d3 & last' & SF & Hat3); [| |exact Hat2|].
+    { intros i x Hin. apply (F i x). right. exact Hin. }
+    { simpl in Hk. lia. }
+    exists d3, last'. split; [exact SF|]. rewrite !app_length.
+    replace (pos + N.of_nat (length h + (length pay + length rest))) with (pos + N.of_nat (length h) + N.of_nat (length pay) + N.of_nat (length rest)) by lia.
+    exact Hat3.
+Qed.
+
+(** thrift_skip(dec, type) as the parsers call it on an unknown field: any value of any wire type within
+    the nesting limit is consumed exactly *)
+Theorem thrift_skip_field_spec : forall v pay d tail pos lf,
+  type_of v <> TBool -> enc (type_of v) v pay ->
+  N.of_nat (vdepth v) <= MAX_NESTING -> len lf + N.of_nat (vdepth v) <= MAX_NESTING ->
+  at_ d (pay ++ tail) pos lf ->
+  exists d', thrift_skip (code (type_of v)) d = Ok d' /\ at_ d' tail (pos + N.of_nat (length pay)) lf.
+Proof.
+  intros v pay d tail pos lf NB HE D1 D2 Hat. unfold thrift_skip.
+  destruct (code_nonbool _ NB) as [N1 N2]. rewrite skip_value_el by assumption.
+  destruct skip_spec as (S1 & _). apply (S1 _ _ _ HE); [apply type_of_code_code | | exact Hat].
+  unfold fits, skip_fuel. repeat split; lia.
+Qed.
+
+Theorem thrift_skip_bool_field_spec : forall tc d rest pos lf, tc = 1 \/ tc = 2 -> after_fhdr d tc rest pos lf ->
+  exists d', thrift_skip tc d = Ok d' /\ at_ d' rest pos lf.
+Proof.
+  intros tc d rest pos lf Htc (R & P & L & B & V). unfold thrift_skip, skip_fuel.
+  assert (M : exists f, N.to_nat MAX_NESTING = S f) by (exists 31%nat; reflexivity). destruct M as [f ->].
+  cbn [skip_value]. change (MAX_NESTING <=? 0) with false. cbv iota.
+  exists (with_bool d false (d_boolv d)). split; [destruct Htc as [-> | ->]; reflexivity|]. unfold at_. simpl. auto.
+Qed.
